@@ -171,18 +171,20 @@ func c06atomic(c *an.Ctx) {
 			}
 		}
 	}
-	// who may touch files in package nsqd
-	allowed := map[string]bool{"nsqd.writeSyncFile": true, "(*nsqd.NSQD).PersistMetadata": true}
+	// who may touch files in package nsqd: exactly one OpenFile in writeSyncFile and one Rename in PersistMetadata
+	allowed := map[string]string{"nsqd.writeSyncFile": "OpenFile", "(*nsqd.NSQD).PersistMetadata": "Rename"}
 	for _, fn := range c.P.PkgFuncs("nsqd") {
 		for _, ci := range an.CallsIn(fn, func(ci ssa.CallInstruction) bool {
-			for _, n := range []string{"OpenFile", "Create", "WriteFile", "Rename", "Remove", "RemoveAll", "Truncate"} {
+			for _, n := range []string{"OpenFile", "Create", "WriteFile", "Rename", "Remove", "RemoveAll", "Truncate", "Link", "Symlink"} {
 				if an.StdCallee(ci, "os", n) {
 					return true
 				}
 			}
 			return false
 		}) {
-			c.Check(allowed[an.FnName(fn)], fn, "file mutation "+describeCall(ci), ci.Pos(), "", "package nsqd mutates files outside writeSyncFile/PersistMetadata: the metadata protocol can be bypassed")
+			name := an.StaticCallee(ci).Name()
+			c.Check(allowed[an.FnName(fn)] == name, fn, "file mutation os."+name, ci.Pos(), "",
+				"os."+name+" in "+an.FnName(fn)+": the metadata protocol is exactly `write+fsync a temp file (writeSyncFile), rename it over nsqd.dat (PersistMetadata)`; any other file mutation (e.g. removing nsqd.dat before the rename) opens a window in which a crash leaves no or a partial document")
 		}
 	}
 }
